@@ -9,6 +9,7 @@ import MoThreads.Driver.M4
 import MoThreads.Driver.M6
 import MoThreads.Driver.M5
 import MoThreads.Driver.M7
+import MoThreads.Driver.M9
 open MoThreads.Driver
 
 inductive Model
@@ -19,6 +20,7 @@ inductive Model
   | m6 (m : M6.Sim)
   | m5 (m : M5.Sim)
   | m7 (m : M7.Sim)
+  | m9 (m : M9.Sim)
 
 structure DState where
   runId : String := ""
@@ -44,6 +46,7 @@ def finish (d : DState) : IO Unit := do
     | .m6 m => IO.println s!"ok {d.runId} steps={m.steps}"
     | .m5 m => IO.println s!"ok {d.runId} steps={m.steps}"
     | .m7 m => IO.println s!"ok {d.runId} steps={m.steps}"
+    | .m9 m => IO.println s!"ok {d.runId} steps={m.steps}"
     | .none => IO.println s!"ok {d.runId} steps=0"
 
 def startRun (ws : List String) : Except String Model :=
@@ -54,6 +57,7 @@ def startRun (ws : List String) : Except String Model :=
     .ok (.m1 (M1.start never rs))
   | _ :: _ :: "m3" :: _ => .ok (.m3 M3.start)
   | _ :: _ :: "m5" :: _ => .ok (.m5 M5.start)
+  | _ :: _ :: "m9" :: _ => .ok (.m9 {})
   | _ :: _ :: "m7" :: rest =>
     let fl := (kv rest "fails").splitOn "," |>.filterMap String.toNat? |>.map (· != 0)
     .ok (.m7 (M7.start ((kv rest "batch").toNat?.getD 1) fl))
@@ -116,6 +120,12 @@ partial def loop (h : IO.FS.Stream) (d : DState) : IO Unit := do
       | .m7 m =>
         match M7.feed m ws with
         | .ok m' => loop h { d with model := .m7 m' }
+        | .error e =>
+          IO.println s!"FAIL {d.runId} line={d.lineNo} {e}"
+          loop h { d with failed := true }
+      | .m9 m =>
+        match M9.feed m ws with
+        | .ok m' => loop h { d with model := .m9 m' }
         | .error e =>
           IO.println s!"FAIL {d.runId} line={d.lineNo} {e}"
           loop h { d with failed := true }
